@@ -61,6 +61,18 @@ func compareNode(k *hdkeychain.ExtendedKey, r *refKey, ni int, where string) err
 	if got, want := addr.EncodeAddress(), refCashEncode(p.CashAddressPrefix, 0, hash160(r.pubBytes())); got != want {
 		return fmt.Errorf("%s: Address(%s) = %s want %s", where, nets[ni].Name, got, want)
 	}
+	// the address is asked for per network: the P2PKH address of the key's public key on whichever network is
+	// named, whatever the key's own version bytes say
+	for _, oi := range []int{(ni + 1) % len(nets), (ni + 4) % len(nets)} {
+		op := nets[oi].Params
+		a2, err := k.Address(op)
+		if err != nil {
+			return fmt.Errorf("%s: Address(%s) on a key of %s failed: %v", where, nets[oi].Name, nets[ni].Name, err)
+		}
+		if got, want := a2.EncodeAddress(), refCashEncode(op.CashAddressPrefix, 0, hash160(r.pubBytes())); got != want {
+			return fmt.Errorf("%s: Address(%s) on a key of %s = %s want %s", where, nets[oi].Name, nets[ni].Name, got, want)
+		}
+	}
 	return nil
 }
 
